@@ -164,10 +164,16 @@ def h_seq(params, env=None):
                     dst = PATHS[e.choose("dst", len(PATHS))]
                     calls.append((op, src, dst))
                     ks, kd = model.key(src), model.key(dst)
-                    if kd == ks or kd.startswith(ks + "/") or ks.startswith(kd + "/"):
-                        calls[-1] = (op, src, dst, "skipped: onto itself / into its own subtree or ancestor")
+                    if kd.startswith(ks + "/"):
+                        calls[-1] = (op, src, dst, "skipped: into its own subtree")
                         continue
                     cache.rename(src, dst)
+                    if kd == ks:
+                        # onto the same path (another spelling, or a case-only rename on a case-insensitive provider): nothing may be lost
+                        why = structural(cache, prov) or functional(cache, model, prov)
+                        if why:
+                            return {"ok": False, "info": {"why": why, "kind": "model", "calls": calls}}
+                        continue
                     moved = [(q, model.t[q]) for q in model.under(ks)]
                     model.remove(ks)
                     model.remove(kd)
@@ -176,15 +182,21 @@ def h_seq(params, env=None):
                         for q, v in moved:
                             model.t[kd + q[len(ks):]] = v
                 elif op == "delete_path":
-                    p = PATHS[e.choose("path", len(PATHS))]
+                    p = (PATHS + ["/"])[e.choose("path", len(PATHS) + 1)]          # "/" = invalidate everything
                     calls.append((op, p))
                     cache.delete(path=p)
-                    model.remove(model.key(p))
+                    if p == "/":
+                        model.t.clear()
+                    else:
+                        model.remove(model.key(p))
                 elif op == "delete_oid":
-                    oid = OIDS[e.choose("oid", NO)]
+                    oid = (OIDS[:NO] + ["root"])[e.choose("oid", NO + 1)]           # "root" = the root's id: invalidate everything
                     calls.append((op, oid))
                     cache.delete(oid=oid)
-                    model.evict_oid(oid)
+                    if oid == "root":
+                        model.t.clear()
+                    else:
+                        model.evict_oid(oid)
                 elif op == "set_oid":
                     p = PATHS[e.choose("path", len(PATHS))]
                     oid = OIDS[e.choose("oid", NO)]
@@ -313,7 +325,7 @@ def meta(tier):
                        "exact id index, id uniqueness, id<->path inverse, and compared with a dictionary model through get_oid/get_type/listdir/walk.",
         "bounds": {"calls": "2 (3)", "paths": PATHS, "ids": OIDS, "case modes": "sensitive, insensitive"},
         "symbolic": ["operation, path, id, type of every call"],
-        "outside": ["longer sequences", "renames onto the node itself, into its own subtree or onto an ancestor (no provider performs them)", "metadata templates"],
+        "outside": ["longer sequences", "renames into the node's own subtree (no provider performs them)", "metadata templates"],
         "stubs": ["MockProvider as the path-convention provider"],
         "assumptions": ["a call refused with AssertionError/ValueError/LookupError is a rejected call: the structure must stay coherent, the model is re-read from it"],
     }
